@@ -25,6 +25,10 @@ _LIMIT = 2**1024
 
 
 def _float_with_overflow(self):
+    from crosshair.tracers import is_tracing
+
+    if not is_tracing():
+        return _orig_float(self)
     if self >= _LIMIT or self <= -_LIMIT:
         raise OverflowError("int too large to convert to float")
     return _orig_float(self)
